@@ -2,11 +2,14 @@ import MgpuModel.C01_Kernels3
 import MgpuProofs.C01BarEx
 import MgpuProofs.C01Tile
 import MgpuProofs.C01TTCode
+import MgpuProofs.C01TileGrid
+import MgpuProofs.C01TileInit
 /-! # C01 — an LDS + barrier kernel class: the barrier rounds of `runWG`, and one tile of `matrixTranspose`
 
 Third deepening.  The shipped kernel is `matrixTranspose` of amd/benchmarks/amdappsdk/matrixtranspose/kernels.hsaco
-(literal `transposeKernelCode`, tied to the loader by the case `c01 ttcode`; the Lean emulator runs it against the
-real emulator in the `c01 emu` cases of harness/c01_tt.go).
+(literal `transposeKernelCode`, tied to the loader by the case `c01 ttcode` of harness/c01_tt.go, which also checks
+the real emulator's result against the transposed input and the frame; the Lean emulator does NOT run this kernel:
+its `v_rcp_iflag_f32` is outside the C03V specification).
 
 * `runWG_one_barrier` — the loop of `emu.ComputeUnit.runWG` on a work-group with ONE `S_BARRIER`: phase-1
   descriptions (to the barrier: LDS writes) and phase-2 descriptions (from the barrier: global writes that may read
@@ -22,9 +25,15 @@ real emulator in the `c01 emu` cases of harness/c01_tt.go).
   516, four `ds_read2_b64 … offset1:1`, four `flat_store_dwordx4`, `s_endpgm` at byte 752, and the C03V specification
   gives the eight DS instructions the meaning "16 bytes per active lane at `VGPR[addr]`" (two adjacent 8-byte halves).
 
-What is NOT proved (see notes/C01.md): that the 173 instructions of the shipped code realise the phase descriptions
-(`Phase1 … lwWave`, `Phase2 … wrWave`) — the per-wavefront symbolic execution, which includes the per-lane unsigned
-division sequence for `(gix + giy) % num_of_blocks_x` — and the lifting over the grid. -/
+* `transposeGrid_workgroups`, `transposeGrid_algebra`, `transposeGrid_from_wave_descriptions` — the lifting over
+  the grid: for every `nb ≥ 1` (matrix of `64 nb` floats per side) the `nb²` work-groups the grid builder produces,
+  each through the two rounds of `runWG`, leave the transposed MATRIX in the output buffer and change nothing else —
+  conditional on the per-wavefront descriptions (`TT.WGDesc`).
+
+What is NOT proved (see notes/C01.md): that the 146 instructions of the shipped code realise the phase descriptions
+(`TT.WGDesc`: `Phase1 … lwWave`, `Phase2 … wrWave` for the four wavefronts of every work-group) — the per-wavefront
+symbolic execution, which includes the per-lane unsigned division sequence for `(gix + giy) % num_of_blocks_x`
+(`v_rcp_iflag_f32`, not in C03V). -/
 set_option linter.unusedVariables false
 set_option maxRecDepth 100000
 namespace C01
@@ -83,6 +92,63 @@ theorem transposeTile_correct (T : TT.Tile) (hT : T.Fits) (f0 L0 : Nat → Nat)
       (∀ R C b, R < 64 → C < 64 → b < 4 → get m' (T.outAddr R C + b) = f0 (T.inAddr C R + b)) ∧
       (∀ a, (∀ R C b, R < 64 → C < 64 → b < 4 → a ≠ T.outAddr R C + b) → get m' a = get m a) :=
   TT.tile_transposed T hT f0 L0 P base fuel rounds Ok lw wr Q ws hne hlw hwr h1 h2 m l hok hl
+
+
+/-! ## the whole launch -/
+
+/-- **transposeGrid_workgroups.** The launch of the benchmark on a square matrix with `nb` blocks of 64 floats per
+    side — grid `(16 nb, 16 nb, 1)`, work-groups `(16, 16, 1)` — makes the grid builder produce exactly `nb²`
+    full-size work-groups, the `n`-th with id `(n % nb, n / nb, 0)` (C08 `wgs_enumerate`). -/
+theorem transposeGrid_workgroups (nb : Nat) (h : 0 < nb) :
+    wgList (TT.geoT nb) = (List.range (nb * nb)).map (TT.wgT nb) :=
+  TT.wgList_geoT nb h
+
+/-- **transposeGrid_algebra.** The phase-2 writes of all `nb²` work-groups (work-group `(a, b)` moves input block
+    (row `a`, column `(a + b) % nb`) — the kernel's `gix = (gix_t + giy_t) % num_of_blocks_x`, `giy = gix_t`), each
+    reading the LDS content its own phase 1 left, applied to any memory content: float (Rg, Cg) of the output matrix
+    holds float (Cg, Rg) of the input matrix, byte for byte, for ALL `Rg, Cg < 64 nb`; nothing outside the output
+    matrix changes.  Every `nb ≥ 1` (= every admissible size: width a multiple of 64), every address. -/
+theorem transposeGrid_algebra (inp out nb : Nat) (hnb : 0 < nb) (f0 L0 g : Nat → Nat) :
+    let g' := applyWrites (TT.gridWrites inp out nb f0 L0) g
+    (∀ Rg Cg b, Rg < 64 * nb → Cg < 64 * nb → b < 4 →
+      g' (out + 4 * (64 * nb * Rg + Cg) + b) = f0 (inp + 4 * (64 * nb * Cg + Rg) + b)) ∧
+    (∀ a, (a < out ∨ out + 4 * (64 * nb * (64 * nb)) ≤ a) → g' a = g a) :=
+  TT.grid_algebra inp out nb hnb f0 L0 g
+
+/-- **transposeGrid_from_wave_descriptions** (the grid-level statement, CONDITIONAL on the per-wavefront
+    descriptions).  For every program `P` and dispatch `D` with the benchmark's geometry: if the wavefronts of every
+    work-group have phase descriptions (`TT.WGDesc`: `Phase1` to the barrier with LDS writes concatenating to `lwAll`
+    of the group's tile, `Phase2` from the barrier with memory writes concatenating to `wrAll`, both stable under an
+    admissibility predicate `Ok` of the user's choice), then `Emu.runE` — install packet and kernel arguments, then
+    work-group after work-group through the two rounds of `runWG` on a fresh LDS — returns without fault a memory
+    that holds the TRANSPOSED matrix (float (Rg, Cg) of the output = float (Cg, Rg) of `f0`, byte for byte, all
+    `Rg, Cg < 64 nb`) and equals the launch memory at every address outside the output matrix.
+    What this leaves open for the SHIPPED kernel is exactly `TT.WGDesc` for `⟨transposeKernelCode, false⟩`: the
+    symbolic execution of its 146 instructions per wavefront. -/
+theorem transposeGrid_from_wave_descriptions (P : Program) (D : Dispatch) (nb : Nat) (hnb : 0 < nb)
+    (hgeo : D.geo = TT.geoT nb) (inp out r : Nat) (f0 : Nat → Nat) (Ok : Mem → Prop)
+    (hwg : ∀ n, n < nb * nb → TT.WGDesc P D (r + 2) Ok inp out nb f0 n)
+    (m : Mem) (hok : Ok (install D.packetAddr D.packet (install D.kernargAddr D.kernarg m))) :
+    ∃ m', runE P D (r + 2) m = .ok m' ∧ Ok m' ∧
+      (∀ Rg Cg b, Rg < 64 * nb → Cg < 64 * nb → b < 4 →
+        get m' (out + 4 * (64 * nb * Rg + Cg) + b) = f0 (inp + 4 * (64 * nb * Cg + Rg) + b)) ∧
+      (∀ a, (a < out ∨ out + 4 * (64 * nb * (64 * nb)) ≤ a) →
+        get m' a = get (install D.packetAddr D.packet (install D.kernargAddr D.kernarg m)) a) :=
+  TT.runE_transpose P D nb hnb hgeo inp out r f0 Ok hwg m hok
+
+/-- **transpose_wave_init.** Where the per-wavefront symbolic execution has to start: `initWfs` / `initWfRegs` on the
+    `n`-th work-group of the launch (code object V3, work-item-id enable 1 — the shipped kernel's flags, reported by
+    the harness) form exactly four wavefronts, all 64 lanes enabled, not completed, and lane `l` of wavefront `k`
+    holds `lix = (64 k + l) % 16` in v0 and `liy = (64 k + l) / 16` in v1 — the indices of `lwWave` / `wrWave`. -/
+theorem transpose_wave_init (D : Dispatch) (nb n : Nat) (hgeo : D.geo = TT.geoT nb) (hv5 : D.v5 = false)
+    (hwi : D.vgprWI = 1) :
+    wavesOf D (TT.wgT nb n) = (List.range 4).map (fun k => initWave D (TT.wgT nb n) ⟨64 * k, TT.fullMask, 64⟩) ∧
+    ∀ k lane, k < 4 → lane < 64 →
+      (initWave D (TT.wgT nb n) ⟨64 * k, TT.fullMask, 64⟩).st.rv 0 lane = (64 * k + lane) % 16 ∧
+      (initWave D (TT.wgT nb n) ⟨64 * k, TT.fullMask, 64⟩).st.rv 1 lane = (64 * k + lane) / 16 ∧
+      (initWave D (TT.wgT nb n) ⟨64 * k, TT.fullMask, 64⟩).st.exec = TT.fullMask ∧
+      (initWave D (TT.wgT nb n) ⟨64 * k, TT.fullMask, 64⟩).completed = false :=
+  ⟨TT.wavesOf_geoT D nb n hgeo, fun k lane hk hl => TT.initWave_ids D nb hgeo hv5 hwi _ k lane hk hl⟩
 
 /-! ## the shipped code bytes -/
 
@@ -146,6 +212,25 @@ example : (TT.lwAll (TT.Tile.mk 0x1000 0x5000 16 16 0 0) (fun a => a % 251)).len
     input float (9, 5) = address inp + 4 * (9 * 64 + 5) -/
 example : (TT.Tile.mk 0x1000 0x5000 16 16 0 0).outAddr 5 9 = 0x5000 + 4 * (5 * 64 + 9) ∧
     (TT.Tile.mk 0x1000 0x5000 16 16 0 0).inAddr 9 5 = 0x1000 + 4 * (9 * 64 + 5) := by decide
+
+/-- the geometry of the launch `c01 emu` replays for width 64 / 128 is `geoT 1` / `geoT 2`; a 16x16 work-group
+    forms four wavefronts (so `wavesOf` is not empty), and `nb = 2` gives four work-groups whose tiles fit -/
+example : TT.geoT 1 = ⟨16, 16, 1, 16, 16, 1⟩ ∧ TT.geoT 2 = ⟨32, 32, 1, 16, 16, 1⟩ := ⟨rfl, rfl⟩
+example : (C08.formWfs 16 16 (C08.spawn (16, 16, 1))).length = 4 := by decide +kernel
+example : ∀ n, n < 2 * 2 → (TT.gridTile 0x1000 0x11000 2 n).Fits := fun n _ => TT.gridTile_fits _ _ 2 n (by decide)
+/-- work-group (1, 1) of a 128-wide launch moves input block (row 1, column 0) to output block (row 0, column 1) -/
+example : TT.gridTile 0x1000 0x11000 2 3 = ⟨0x1000, 0x11000, 32, 32, 0, 1⟩ := rfl
+
+/-- the dispatch the harness reports for width 64 (flags 1101000000110, V3, work-item-id enable 1): the hypotheses
+    of `transpose_wave_init` hold, so its work-group has four wavefronts -/
+def ttDispatch : Dispatch :=
+  { geo := TT.geoT 1, kernelObject := 0xa000, entry := 0, kernargAddr := 0xb000, kernarg := [], packetAddr := 0xc000,
+    packet := [], privSegBuf := true, dispatchPtr := true, queuePtr := false, kernargPtr := true, dispatchID := false,
+    flatScratch := false, privSegSize := false, wgCountX := false, wgCountY := false, wgCountZ := false,
+    wgIDX := true, wgIDY := true, wgIDZ := false, v5 := false, vgprWI := 1 }
+example : (wavesOf ttDispatch (TT.wgT 1 0)).length = 4 := by
+  rw [(transpose_wave_init ttDispatch 1 0 rfl rfl rfl).1]
+  rfl
 
 end Emu
 end C01
